@@ -508,7 +508,11 @@ func (g *caseGen) one() {
 	case k < 97:
 		g.alias2()
 	case k < 98:
-		g.serve()
+		if r.Chance(1, 2) {
+			g.serve()
+		} else {
+			g.wserve()
+		}
 	default:
 		q := g.relatedQ()
 		g.qs = append(g.qs, q)
@@ -674,6 +678,60 @@ func (g *caseGen) alias2() {
 	}
 }
 
+// wire-born requests (packed query, undecoded chain): the wire fast path of the
+// cache first, the decoded ladder as fallback; exact and zone states, CD 0/1,
+// inside the backoff, at its boundary and after it.
+func (g *caseGen) wserve() {
+	r := g.r
+	q := g.relatedQ()
+	if len(g.zs) > 0 && r.Chance(1, 2) {
+		z := vlib.Pick(r, g.zs)
+		q = qspec{"www." + z.zone, vlib.Pick(r, []int{1, 28, 16}), 1, r.Bool(), "-"}
+		if z.zone == "." {
+			q.name = "www."
+		}
+	}
+	q.t = vlib.Pick(r, []int{1, 28, 16})
+	q.c = 1
+	// only the spelling a decoder hands the server for the packed name (redundant escapes
+	// such as "\\t" vanish on the wire; the failure cache identifies names by their spelling)
+	if c, ok := canonRaw(q.name); !ok || len(c) > 200 {
+		q.name = "www.example.com."
+	} else if _, ok := wireOfPres(q.name); !ok {
+		q.name = "www.example.com."
+	} else {
+		ls, _, _, _ := scanName(c)
+		var bl [][]byte
+		for _, l := range ls {
+			bl = append(bl, []byte(l))
+		}
+		q.name = presentLabels(bl)
+	}
+	// make sure there is something to be behind: a fresh zone or question failure of the shared audience
+	if r.Chance(1, 2) {
+		zone := q.name
+		if i := strings.Index(q.name, "."); i >= 0 && i+1 < len(q.name) && r.Bool() {
+			zone = q.name[i+1:]
+		}
+		if _, ok := canonRaw(zone); ok && !strings.HasSuffix(strings.TrimSuffix(zone, "."), "\\") {
+			g.zs = append(g.zs, zspec{zone, 1})
+			g.out("fail recz %s %d 3", zspec{zone, 1}, g.t)
+		}
+	} else {
+		g.out("fail recq %s %d 3 0", qspec{q.name, q.t, 1, q.cd, "-"}, g.t)
+	}
+	for i := 1 + r.Intn(3); i > 0; i-- {
+		t := g.t
+		if i > 1 || r.Bool() {
+			t = g.step()
+		}
+		g.out("fail wserve %s %d %d %s %s %d", hexName(q.name), q.t, q.c, vlib.B(q.cd), vlib.B(r.Bool()), t)
+		if r.Chance(1, 3) {
+			q.cd = !q.cd
+		}
+	}
+}
+
 // a short client session through the real Cache.ServeDNS: the upstream fails,
 // the repeats inside the backoff must not reach it, the first one after it may.
 func (g *caseGen) serve() {
@@ -810,6 +868,19 @@ func genL3(r *vlib.R, tier string, emit func(string), n *int) {
 	}
 	emit(fmt.Sprintf("fail l3zone %s,x,%s 0", vlib.Pick(r, fails), vlib.Pick(r, fails))) // one server denies the name: NXDOMAIN, no zone failure
 	*n--
+	// the identity a failure is filed under is the client's: dnssec switch × CD × outcome path
+	ids := 2
+	if tier == "thorough" {
+		ids = 8
+	}
+	for i := 0; i < ids; i++ {
+		path := vlib.Pick(r, []string{"drop", "drop", "servfail", "refused", "ok"})
+		if i == 0 {
+			path = "drop" // the Go-error path of the handler
+		}
+		emit(fmt.Sprintf("fail l3id %s %s %s %d", vlib.Pick(r, []string{"off", "off", "on"}), vlib.B(i%2 == 1 || r.Chance(1, 4)), path, vlib.Pick(r, []int{1, 28, 16})))
+		*n--
+	}
 	emit("fail l3zone s,r,s,s 0") // control: every server fails, the zone failure may be recorded
 	emit(fmt.Sprintf("fail l3zone f,%s,%s 0", vlib.Pick(r, fails), vlib.Pick(r, fails)))
 	*n -= 2
